@@ -527,10 +527,6 @@ def operator_grid_pool(ctx, MT):
                             continue
                         with Spy() as spy:
                             res = call(lambda: op(L, R))
-                        if (m, n) == (1, 1) and neg and res[0] == 'raise' and cn in POSES:
-                            # single-valued  X != Y  on poses raises TypeError: property C08's finding, not a broadcasting matter
-                            ctx.stats['out-of-scope:pose-ne-single-valued'] = f"{exn_name(res[1])} (C08)"
-                            continue
                         check_cell(ctx, MT, cn, opname, m, n, res, table, spy.log,
                                    {'class': cn, 'op': opname, 'm': m, 'n': n, 'right_is_copy_of_left_index': pat,
                                     'left_hex': [hexl(a) for a in A[:m]], 'right_hex': [hexl(b) for b in Rl]}, decode=False, dunder=dunder)
@@ -803,7 +799,7 @@ def interp_grid(ctx, MT):
                     cell = '1x1' if (m, k) == (1, 1) else '1xK' if m == 1 else 'Mx1' if k == 1 else 'MxK'
                     if cell != 'MxK' and obs[0] != 'ok':
                         # the property: one value x vector of s -> K results; M values x one s -> M results
-                        ctx.fail(f'oracle:interp:{site}:{cell}:{obs[0]}:{obs[1]}', f"{cn}.interp on an object holding {m} values with s holding {k} "
+                        ctx.fail(f'oracle:interp:{site}:{cell}:' + (f'err:{obs[1]}' if obs[0] == 'err' else 'wrong-result'), f"{cn}.interp on an object holding {m} values with s holding {k} "
                                  f"value(s) ({form}) gives {obs} instead of {blen(m, k)} results equal to the single-valued interpolations",
                                  dict(replay, observed=str(obs)))
                     if site == 'SMPose.interp':
